@@ -564,6 +564,22 @@ func (x *Exec) storeField(base ast.Expr, baseT types.Type, i int, v Value, st *S
 			st.vars[pl.Obj] = sv.with(stt.Field(i).Name(), v)
 			return
 		}
+		if lv, isLoc := pv.(LocV); isLoc {
+			// a pointer into another object (&a[i], &s.f): store into the location it was taken from
+			stt := p.Elem().Underlying().(*types.Struct)
+			if len(lv.Path) == 0 {
+				if sv, ok := x.expr(lv.Expr, st).(*StructV); ok {
+					x.assign(lv.Expr, sv.with(stt.Field(i).Name(), v), st)
+					return
+				}
+			}
+			if t := x.info.TypeOf(lv.Expr); t != nil {
+				x.abstractions["write through a pointer into an array element or field: the whole location becomes unconstrained"] = true
+				x.assign(lv.Expr, x.freshTyped(t, "written", st), st)
+				return
+			}
+			x.unsupported(base, "store through a pointer into another object")
+		}
 		x.storeFieldPtr(st, p.Elem(), pv.(Term), i, v, pos)
 		return
 	}
